@@ -29,7 +29,13 @@ package main
 //	          | w | hf                            func(http.ResponseWriter,*http.Request) / http.HandlerFunc
 //	          | t <status> <body hex>             func() (int, string)
 //	          | l <maps>                          flamego.LoggerInvoker
+//	          | ci <maps>                         an explicit flamego.ContextInvoker
 //	  maps = - | <ty>.<cty>.<vid>+…  : values the handler maps into the REQUEST scope through its Context.
+//	  With <ty> one of the three per-request services the handler RE-REGISTERS that service with an
+//	  identifiable replacement (<cty> is ignored): 12 = a Context wrapper embedding the handler's own
+//	  Context (c.MapTo(wrapper, (*flamego.Context)(nil))), 13 = an http.ResponseWriter wrapper around
+//	  c.ResponseWriter() (c.MapTo), 14 = a clone of the request (r.WithContext) carrying the id (c.Map).
+//	  Every later handler — of a built-in auto-wrapped shape or not — must receive the replacement.
 //
 // The universe (which types are interfaces, who implements whom) is computed here with reflect and
 // sent to the model on the NEW line.  Value ids: every registered value carries its own id, so
@@ -38,6 +44,7 @@ package main
 // membership (lib/props.py, `line_equal`).
 
 import (
+	"context"
 	"fmt"
 	"io"
 	"math/rand"
@@ -173,6 +180,19 @@ func mkVal(ty, id int) interface{} {
 	panic("mkVal: not a concrete universe type")
 }
 
+// identifiable replacements for the three per-request services
+type idContext struct {
+	flamego.Context
+	id int
+}
+
+type idWriter struct {
+	http.ResponseWriter
+	id int
+}
+
+type verifReqID struct{}
+
 // injSession knows the identities of the per-request services of a flame session.
 type injSession struct {
 	reqs      []*http.Request
@@ -216,7 +236,17 @@ func (s *injSession) idOf(x interface{}) int {
 		return v.ID
 	case tO:
 		return v.ID
+	case *idContext:
+		return v.id
+	case *idWriter:
+		return v.id
 	case *http.Request:
+		if v == nil {
+			return 0
+		}
+		if id, ok := v.Context().Value(verifReqID{}).(int); ok {
+			return id
+		}
 		for k, r := range s.reqs {
 			if r == v {
 				return 3000 + k
@@ -774,9 +804,17 @@ func (s *flameSess) applyMaps(c flamego.Context, maps string) {
 	for _, m := range strings.Split(maps, "+") {
 		p := strings.Split(m, ".")
 		ty, cty, vid := atoi(p[0]), atoi(p[1]), atoi(p[2])
-		if isIfaceIdx(ty) {
+		switch {
+		case ty == tyCtx:
+			c.MapTo(&idContext{Context: c, id: vid}, (*flamego.Context)(nil))
+		case ty == tyRW:
+			c.MapTo(&idWriter{ResponseWriter: c.ResponseWriter(), id: vid}, (*http.ResponseWriter)(nil))
+		case ty == tyReq:
+			r := c.Request().Request
+			c.Map(r.WithContext(context.WithValue(r.Context(), verifReqID{}, vid)))
+		case isIfaceIdx(ty):
 			c.MapTo(mkVal(cty, vid), ifacePtrs[ty])
-		} else {
+		default:
 			c.Map(mkVal(cty, vid))
 		}
 	}
@@ -811,6 +849,12 @@ func (s *flameSess) handler(l []string) flamego.Handler {
 			s.record([]interface{}{c})
 			s.applyMaps(c, maps)
 		}
+	case len(l) == 2 && l[0] == "ci":
+		maps := l[1]
+		return flamego.ContextInvoker(func(c flamego.Context) {
+			s.record([]interface{}{c})
+			s.applyMaps(c, maps)
+		})
 	case len(l) == 1 && l[0] == "w":
 		return func(w http.ResponseWriter, r *http.Request) { s.record([]interface{}{w, r}) }
 	case len(l) == 1 && l[0] == "hf":
@@ -1074,6 +1118,10 @@ func (g *injGen) mapsSpec(maxN int) string {
 	}
 	ms := make([]string, k)
 	for i := range ms {
+		if g.r.Intn(4) == 0 { // re-register one of the request's own services
+			ms[i] = fmt.Sprintf("%d.0.%d", tyCtx+g.r.Intn(3), 5000+g.nextVid())
+			continue
+		}
 		_, ty, cty := g.regSpec()
 		g.regd = append(g.regd, ty)
 		ms[i] = fmt.Sprintf("%d.%d.%d", ty, cty, g.nextVid())
@@ -1117,8 +1165,22 @@ func (g *injGen) handlerSpec(last bool) string {
 			maps = g.mapsSpec(2)
 		}
 		return fmt.Sprintf("%s %s %s", mode, joinInts(sig), maps)
-	case k < 14:
+	case k < 12:
 		return "c " + g.mapsSpec(2)
+	case k < 13:
+		return "ci " + g.mapsSpec(2)
+	case k < 14:
+		// reflective twins of the built-in shapes: the same parameters plus the always-resolvable logger
+		switch r.Intn(4) {
+		case 0:
+			return fmt.Sprintf("g %d,%d %s", tyCtx, tyLog, g.mapsSpec(2))
+		case 1:
+			return fmt.Sprintf("g %d,%d,%d -", tyRW, tyReq, tyLog)
+		case 2:
+			return fmt.Sprintf("g %d,%d %s", tyLog, tyCtx, g.mapsSpec(1))
+		default:
+			return fmt.Sprintf("g %d,%d -", tyReq, tyRW)
+		}
 	case k < 15:
 		return "w"
 	case k < 16:
@@ -1188,6 +1250,66 @@ func (g *injGen) fixedFlameSessions() {
 	g.emit("FV %d", tyStr)
 }
 
+// serviceSessions: a handler re-registers a subset of the request's own services (Context,
+// http.ResponseWriter, *http.Request) in the request scope; afterwards every built-in auto-wrapped
+// shape, every fast invoker and their reflective twins (same parameters plus the logger) must
+// report the replacement; a second re-registration replaces the first; the next request starts
+// again from its own services.  All subsets x all kinds of re-registering handler x position.
+func (g *injGen) serviceSessions() {
+	u := universeArgs(nFlameTypes)
+	shapes := func() {
+		g.emit("H c -")
+		g.emit("H ci -")
+		g.emit("H w")
+		g.emit("H hf")
+		g.emit("H l -")
+		g.emit("H g %d,%d -", tyCtx, tyLog)
+		g.emit("H g %d,%d,%d -", tyRW, tyReq, tyLog)
+		g.emit("H g %d -", tyCtx) // MakeFunc'd func(flamego.Context): auto-wrapped as well
+		g.emit("H g %d,%d -", tyRW, tyReq)
+		g.emit("H f %d -", tyCtx)
+		g.emit("H f %d,%d -", tyRW, tyReq)
+		g.emit("H g %d,%d,%d -", tyReq, tyRW, tyCtx)
+	}
+	registrars := []string{"c %s", "ci %s", "l %s", "g %d,%d %%s", "f %d %%s", "g %d %%s"}
+	registrars[3] = fmt.Sprintf(registrars[3], tyLog, tyCtx)
+	registrars[4] = fmt.Sprintf(registrars[4], tyCtx)
+	registrars[5] = fmt.Sprintf(registrars[5], tyCtx)
+	for subset := 1; subset < 8; subset++ {
+		for _, reg := range registrars {
+			for _, viaUse := range []bool{false, true} {
+				g.vid = 0
+				maps := func() string {
+					var ms []string
+					for b := 0; b < 3; b++ {
+						if subset&(1<<b) != 0 {
+							ms = append(ms, fmt.Sprintf("%d.0.%d", tyCtx+b, 5000+g.nextVid()))
+						}
+					}
+					return strings.Join(ms, "+")
+				}
+				g.emit("NEW injectflame %s", u)
+				if viaUse {
+					g.emit("U c -")
+					g.emit("U "+reg, maps()) // a middleware re-registers on every request
+				} else {
+					g.emit("H c -")
+					g.emit("H "+reg, maps())
+				}
+				shapes()
+				g.emit("H "+reg, maps()) // re-registered again: the later one wins
+				shapes()
+				g.emit("H t 201 %s", hx("ok"))
+				g.emit("RQ")
+				shapes() // the next request: its own services (or the middleware's fresh replacements)
+				g.emit("RQ")
+				g.emit("FV %d", tyCtx)
+				g.emit("FV %d", tyReq)
+			}
+		}
+	}
+}
+
 func genInject(r *rand.Rand, tier string, emit Emit) {
 	g := newInjGen(r, emit)
 	exScopes, nInj, nFlame := 2, 2500, 700
@@ -1195,6 +1317,7 @@ func genInject(r *rand.Rand, tier string, emit Emit) {
 		exScopes, nInj, nFlame = 3, 60000, 15000
 	}
 	g.fixedFlameSessions()
+	g.serviceSessions()
 	for n := 1; n <= exScopes; n++ {
 		g.exhaustiveInject(n)
 	}
